@@ -361,7 +361,8 @@ def model_save_quantized_weights(model, filename=None, custom_objects={}):
               quantizer.alpha == "auto_po2"):
           unsigned_bits = quantizer.bits - quantizer.keep_negative
           m = K.cast_to_floatx(pow(2, unsigned_bits))
-          m_i = K.cast_to_floatx(K.pow(2, quantizer.integer))
+          m_i = K.cast_to_floatx(
+              K.pow(2.0, K.cast_to_floatx(quantizer.integer)))
 
           assert hasattr(quantizer.scale, "numpy") or isinstance(
               quantizer.scale, np.ndarray), (
